@@ -299,12 +299,18 @@ def pigeonhole(ctx):
         if e[0] == "call" and (e[1].endswith("::index") or e[1].endswith("::index_mut")) and is_var(strip_into_iter(e[2][0]), sv):
             return e[2][1]
         return None
-    ifs = [s for s in lp[3] if s[0] == "if"]
+    ifs = [s for s in lp[3] if s[0] == "if" and norm_slot(s[1]) is not None]
     ok = False
     det = None
     idx_expr = None
     if len(ifs) == 1:
         idx_expr = norm_slot(ifs[0][1])
+    # nothing may skip the bookkeeping: before the occupancy test the loop body only binds locals
+    before = lp[3][:lp[3].index(ifs[0])] if len(ifs) == 1 else lp[3]
+    skipping = [st for st in before if st[0] not in ("let", "letpat")]
+    obs.append(Ob(r, "no-skip", len(ifs) == 1 and not skipping,
+                  "every element of the list reaches the occupancy test (no `continue`/`break`/conditional before it)",
+                  detail=[st[0] + "@" + str(st[-1]) for st in skipping]))
     if idx_expr is not None:
         then_rm = [x for st in ifs[0][2] for e in T.stmt_exprs(st) for x in T.sx_calls(e, "Vec::remove")]
         else_set = [st for st in ifs[0][3] if st[0] == "assign" and norm_slot(st[1]) is not None and expand(norm_slot(st[1])) == expand(idx_expr) and st[2] == ("lit", True)]
